@@ -11,6 +11,7 @@ import (
 
 	"verif/h/core"
 	"verif/h/gen"
+	"verif/h/sched"
 )
 
 func mapsEqual(a, b map[uint64]badger.TableManifest) bool {
@@ -62,6 +63,12 @@ func replayFile(path string, opt badger.Options) (map[uint64]badger.TableManifes
 	return m.Tables, off, nil
 }
 
+type manSnap struct {
+	op      string
+	data    []byte
+	missing bool
+}
+
 type boundary struct {
 	off int64
 	m   map[uint64]badger.TableManifest
@@ -72,7 +79,7 @@ func C17(c *core.Ctx) {
 	c.Rule("random sequences of change sets (creates at levels 0-6 with key ids and compression, deletes of live and of unknown ids, mixed sets) " +
 		"on a real manifest file with rewrite threshold 5-50 (every third run starts with a stale MANIFEST-REWRITE file left by a crashed rewrite); after every addChanges the in-memory map, a reference map and ReplayManifestFile must agree; " +
 		"then every truncation offset since the last rewrite must replay to the map after the last complete set and return that set's end offset; " +
-		"a flipped byte inside a complete set's payload or crc must produce an error; distinct = (threshold, rewrites seen, unknown-delete used) classes")
+		"a flipped byte inside a complete set's payload or crc must produce an error; the MANIFEST as it is on disk at every persistence event inside addChanges (append, sync, rewrite-file sync, rename) must replay to the table set before or after that change set; distinct = (threshold, rewrites seen, unknown-delete used) classes")
 	r := c.Rand("c17")
 	dir := c.WorkDir()
 	defer os.RemoveAll(dir)
@@ -104,6 +111,7 @@ func C17(c *core.Ctx) {
 		info := map[string]any{"run": run, "threshold": thr, "sets": nsets}
 		bad := false
 		lastCreations := 0
+		prevRef := cloneMap(ref)
 		for s := 0; s < nsets && !bad; s++ {
 			var ch []*pb.ManifestChange
 			n := 1 + r.Intn(6)
@@ -131,7 +139,43 @@ func C17(c *core.Ctx) {
 					}
 				}
 			}
-			if err := mf.AddChanges(ch); err != nil {
+			// crash snapshots: what the MANIFEST looks like on disk at every persistence event inside
+			// this addChanges (append, sync, rewrite file sync, rename ...); a process dying there must
+			// find either the table set from before this change set or the one after it
+			before := prevRef
+			var snaps []manSnap
+			sched.Install(sched.Config{OnFS: func(op, fpath string, off, n int64) {
+				b, err := os.ReadFile(path)
+				snaps = append(snaps, manSnap{op: op + " " + filepath.Base(fpath), data: b, missing: err != nil})
+			}})
+			err := mf.AddChanges(ch)
+			sched.Uninstall()
+			for _, sn := range snaps {
+				c.Count("crash_snapshots", 1)
+				var got map[uint64]badger.TableManifest
+				if sn.missing {
+					got = map[uint64]badger.TableManifest{} // Open would start an empty database
+				} else {
+					cdir := filepath.Join(sub, "C")
+					_ = os.MkdirAll(cdir, 0o755)
+					cp := filepath.Join(cdir, badger.ManifestFilename)
+					_ = os.WriteFile(cp, sn.data, 0o644)
+					g, _, rerr := replayFile(cp, opt)
+					if rerr != nil {
+						c.Violation("C17|crash-snapshot|replay-error", fmt.Sprintf("MANIFEST as found right after %q does not replay: %v", sn.op, rerr), info)
+						bad = true
+						break
+					}
+					got = g
+				}
+				if !mapsEqual(got, before) && !mapsEqual(got, ref) {
+					c.Violation("C17|crash-snapshot|neither-before-nor-after", fmt.Sprintf("MANIFEST as found right after %q (missing=%v) yields %d tables: neither the %d tables before this change set nor the %d after it", sn.op, sn.missing, len(got), len(before), len(ref)), info)
+					bad = true
+					break
+				}
+			}
+			prevRef = cloneMap(ref)
+			if err != nil {
 				c.Violation("C17|addchanges", "addChanges failed on a valid change set: "+err.Error(), info)
 				bad = true
 				break
